@@ -66,9 +66,22 @@ type Link struct {
 }
 
 // Delivery records the cumulative number of reply bytes delivered to the client by the end of a step.
-type Delivery struct{ Step, Cum int }
+type Delivery struct {
+	Step, Cum int
+	At        time.Time
+}
 
 // DeliveredStep returns the step at which the first n bytes of the server's output had been delivered (-1 if never).
+// DeliveredAt returns the fake time at which the first n bytes of the server's output had been delivered.
+func (l *Link) DeliveredAt(n int) (time.Time, bool) {
+	for _, d := range l.DeliveryLog {
+		if d.Cum >= n {
+			return d.At, true
+		}
+	}
+	return time.Time{}, false
+}
+
 func (l *Link) DeliveredStep(n int) int {
 	for _, d := range l.DeliveryLog {
 		if d.Cum >= n {
@@ -647,7 +660,7 @@ func (s *Sim) doS2C(l *Link) {
 	b := l.S.Out[:m]
 	l.C.Deliver(b)
 	l.Delivered += m
-	l.DeliveryLog = append(l.DeliveryLog, Delivery{s.Step, l.Delivered})
+	l.DeliveryLog = append(l.DeliveryLog, Delivery{s.Step, l.Delivered, time.Now()})
 	l.S.Out = append([]byte(nil), l.S.Out[m:]...)
 	s.logf("  s2c c%d %d/%d bytes", l.ID, m, n)
 	if l.CutAfter >= 0 {
